@@ -407,6 +407,47 @@ fn parsers_sub(ctx: &Ctx) -> Sub {
     .witness(&["valid-roundtrip", "serde-roundtrip", "mutant-rejected"])
 }
 
+/// every C08 key candidate as a PASERK string, offered to the key parsers of its version
+fn key_strings_sub(ctx: &Ctx) -> Sub {
+    let ps: Vec<parsers::Parser> = parsers::all().into_iter().filter(|p| p.kind.starts_with("key.")).collect();
+    let ps = Arc::new(ps);
+    let cands: Vec<Arc<Vec<(String, Vec<u8>)>>> = (1..=4u8).map(|v| Arc::new(crate::c08::key_candidates(v, ctx.thorough()))).collect();
+    let n = ps.len() as u64;
+    Sub::new(
+        "key-strings",
+        n,
+        "each of the 30 Key<V,K> parsers x every byte string of the C08 key alphabet (all lengths 0..=128, alternative point encodings, cut/extended keys, PEM) as `kN.kind.` + base64url(bytes): whatever is accepted must re-serialise to exactly the input (k1: PEM input excepted)",
+        move |idx, describe| {
+            let p = &ps[idx as usize];
+            let ver = crate::backends::ver_of(p.backend_idx);
+            let mut o = Outcome::new();
+            o.evals = 0;
+            if describe {
+                o.sample = Some(json!({"parser": format!("{}:{}", p.backend, p.kind)}));
+            }
+            for (label, bytes) in cands[(ver - 1) as usize].iter() {
+                o.evals += 1;
+                let s = format!("{}{}", p.header, b64(bytes));
+                match subject(|| (p.parse)(&s)) {
+                    Ok(Ok(d)) if d == s => o.class("accepted-canonical"),
+                    Ok(Ok(d)) => {
+                        if ver == 1 && bytes.starts_with(b"-----BEGIN") {
+                            o.class("pem-input-accepted");
+                        } else {
+                            o.violate(format!("key-strings/{}/redisplay", p.kind), format!("{}:{} accepted {label} and re-serialises it differently", p.backend, p.kind), json!({"string": s, "redisplay": d}));
+                        }
+                    }
+                    Ok(Err(_)) => o.class("rejected"),
+                    Err(pn) => o.violate(format!("key-strings/{}/panic", p.kind), format!("panic: {pn}"), json!({"string": s})),
+                }
+            }
+            o.nontrivial = o.evals;
+            o
+        },
+    )
+    .witness(&["accepted-canonical", "rejected"])
+}
+
 pub fn build(ctx: &Ctx) -> Property {
     let mut p = Property::new("C09", "exploration");
     for c in CARRIERS {
@@ -417,6 +458,7 @@ pub fn build(ctx: &Ctx) -> Property {
     }
     p.subs.extend(encode_sub(ctx.thorough()));
     p.subs.push(parsers_sub(ctx));
+    p.subs.push(key_strings_sub(ctx));
     p.assume("the base64 layer is shared by all instantiations (paseto-core::base64): the exhaustive tail enumeration is run on the three code paths (decode_vec via KeyText, fixed buffer via KeyId, token split) at one backend, and the reduced alphabet on all 132 instantiations");
     p.assume("reference: table-driven strict decoder (alphabet membership, length % 4 != 1, zero trailing bits); tokens may carry one trailing '.' (empty footer)");
     p
